@@ -219,6 +219,9 @@ package atree
 //@   ensures[C05] err == nil ==> hdrBand(a.childrenHeaders[chi]) && hdrBand(a.childrenHeaders[chi + 1]) && nodeWF(sto[a.childrenHeaders[chi].slabID]) && nodeWF(sto[a.childrenHeaders[chi + 1].slabID])
 //@   ensures[C01 C03 C08] err == nil ==> has(stored, a) && has(stored, sto[a.childrenHeaders[chi].slabID]) && has(stored, sto[a.childrenHeaders[chi + 1].slabID])
 //@   ensures[C09] forall id SlabID :: old(sto[id]) != nil && id != old(a.header.slabID) && id != old(a.childrenHeaders)[chi].slabID ==> sto[id] == old(sto[id])
+//@   # packaged for the callers: if every other child was in the size band, every child is in the band afterwards
+//@   ensures[C05] err == nil && (forall k :: 0 <= k && k < len(old(a.childrenHeaders)) && k != chi ==> hdrBand(old(a.childrenHeaders)[k])) ==>
+//@        (forall k :: 0 <= k && k < len(a.childrenHeaders) ==> hdrBand(a.childrenHeaders[k]))
 //@   modifies a.childrenHeaders, a.childrenCountSum, a.header, ghost.sto, ghost.issued, ghost.stored, ghost.touched, alloc,
 //@        as(child, *ArrayDataSlab).elements, as(child, *ArrayDataSlab).header, as(child, *ArrayDataSlab).next,
 //@        as(child, *ArrayMetaDataSlab).childrenHeaders, as(child, *ArrayMetaDataSlab).childrenCountSum, as(child, *ArrayMetaDataSlab).header
@@ -348,7 +351,7 @@ package atree
 //@   ensures[C09] err == nil ==> sto[a.header.slabID] == a && distinctChildren(a)
 //@   ensures[C09] err == nil ==> agree(a)
 //@   ensures[C09] stoFrameMeta(a, valueRoot(value))
-//@   ensures[C05] err == nil ==> (forall k :: 0 <= k && k < len(a.childrenHeaders) ==> hdrBand(a.childrenHeaders[k]))
+//@   ensures[C01 C05] err == nil ==> (forall k :: 0 <= k && k < len(a.childrenHeaders) ==> hdrBand(a.childrenHeaders[k]))
 //@   ensures[C01 C03 C08] err == nil ==> has(stored, a)
 //@   ensures[C18] err != nil ==> categorised(err)
 //@   modifies ArrayMetaDataSlab.childrenHeaders@inSub(a), ArrayMetaDataSlab.childrenCountSum@inSub(a), ArrayMetaDataSlab.header@inSub(a),
@@ -369,7 +372,7 @@ package atree
 //@   ensures[C06] err == nil ==> a.header.size <= old(a.header.size) + 14 && a.header.size >= old(a.header.size) && a.extraData == old(a.extraData)
 //@   ensures[C09] err == nil ==> sto[a.header.slabID] == a && distinctChildren(a)
 //@   ensures[C09] err == nil ==> agree(a)
-//@   ensures[C05] err == nil ==> (forall k :: 0 <= k && k < len(a.childrenHeaders) ==> hdrBand(a.childrenHeaders[k]))
+//@   ensures[C01 C05] err == nil ==> (forall k :: 0 <= k && k < len(a.childrenHeaders) ==> hdrBand(a.childrenHeaders[k]))
 //@   ensures[C01 C03 C08] err == nil ==> has(stored, a)
 //@   ensures[C18] err != nil ==> categorised(err)
 //@   modifies ArrayMetaDataSlab.childrenHeaders@inSub(a), ArrayMetaDataSlab.childrenCountSum@inSub(a), ArrayMetaDataSlab.header@inSub(a),
@@ -392,7 +395,7 @@ package atree
 //@   ensures[C06] err == nil ==> a.header.size <= old(a.header.size) && a.header.size + 14 >= old(a.header.size) && a.extraData == old(a.extraData)
 //@   ensures[C09] err == nil ==> sto[a.header.slabID] == a && distinctChildren(a)
 //@   ensures[C09] err == nil ==> agree(a)
-//@   ensures[C05] err == nil ==> (forall k :: 0 <= k && k < len(a.childrenHeaders) ==> hdrBand(a.childrenHeaders[k]))
+//@   ensures[C01 C05] err == nil ==> (forall k :: 0 <= k && k < len(a.childrenHeaders) ==> hdrBand(a.childrenHeaders[k]))
 //@   ensures[C01 C03 C08] err == nil ==> has(stored, a)
 //@   ensures[C18] err != nil ==> categorised(err)
 //@   modifies ArrayMetaDataSlab.childrenHeaders@inSub(a), ArrayMetaDataSlab.childrenCountSum@inSub(a), ArrayMetaDataSlab.header@inSub(a),
